@@ -377,8 +377,11 @@ func (x *Exec) specCallGo(c *SpecCtx, fn *ssa.Function, args []Val) Val {
 	x.stack = append(x.stack, fn)
 	rets, out := x.execBody(nf, st)
 	x.stack = x.stack[:len(x.stack)-1]
-	if out == nil || len(rets) != 1 {
-		sfail("spec call of %s: not a single-result total function", fn.Name())
+	if out == nil || len(rets) == 0 {
+		sfail("spec call of %s: function has no normal exit or no result", fn.Name())
+	}
+	if len(rets) > 1 {
+		return Val{Tup: rets}
 	}
 	return rets[0]
 }
